@@ -14,6 +14,27 @@ CHECKS = {
              'all other queries for every tree shape up to the size bound with all cardinalities, one feature type / feature cardinality and one name symbolic. '
              'Holds-within-bound or replayed counterexample; not a proof.',
         note='Trusted: CrossHair 0.0.110 with the two recorded engine patches, z3 5.1, the reference tree facts in fmverif/refsem.py; tree shapes are enumerated (N<=4 quick, N<=5 thorough).'),
+    'C13': dict(
+        category='model_checking', design_ref='6 C13',
+        technique='CrossHair symbolic execution (z3) of count_configurations_rec against a closed-form count on symbolic cardinalities; z3 AllSAT model counts of the reference semantics with and without constraints',
+        text='Per tree shape the real estimate runs on symbolic (min,max) pairs and must equal the closed-form exact count (decided over all cardinalities); '
+             'z3 counts configurations of tree /\\ constraints for the upper-bound half and validates the closed form. Bounded; not a proof.',
+        note='Trusted: CrossHair + engine patches, z3, reference semantics tree2z3; shapes enumerated N<=4/6; constraints: 1-2 trees of depth<=1.'),
+    'C14': dict(
+        category='model_checking', design_ref='6 C14',
+        technique='CrossHair symbolic execution (z3) of get_core_features on symbolic cardinalities vs forced-set closed form; z3 queries (T and ctcs and not f unsat) per returned feature',
+        text='Per tree shape, all cardinalities symbolic: result == always-selected set, no duplicates, root included; with constraints every returned feature is z3-proved present in all configurations. Bounded.',
+        note='Trusted: CrossHair + patches, z3, tree2z3; the closed form is validated against z3 on every enumerated constraint-free instance. Shapes N<=5/6 (E1), N<=4/5 (E2).'),
+    'C15': dict(
+        category='model_checking', design_ref='6 C15',
+        technique='CrossHair symbolic execution (z3) of get_atomic_sets on symbolic cardinalities vs co-selection closed form; z3 queries (T and ctcs and (f xor g) unsat) per pair',
+        text='Per tree shape, all cardinalities symbolic: partition, same-set pairs always co-selected, mandatory child with parent; with constraints co-selection is decided by z3. Bounded.',
+        note='Trusted: CrossHair + patches, z3, tree2z3; closed form validated against z3. Shapes N<=5/6 (E1), N<=4/5 (E2).'),
+    'C16': dict(
+        category='model_checking', design_ref='6 C16',
+        technique='CrossHair symbolic execution (z3) of the six tree operations with symbolic cardinalities and symbolic leaf-group widths vs reference tree facts; exhaustive shape enumeration',
+        text='Shapes are enumerated (enumeration); cardinalities and the widths of leaf groups are solver variables; every operation result must equal the reference tree fact on every path, incl. ancestors of every feature and the root-only model. Bounded.',
+        note='Trusted: CrossHair + patches, z3, reference tree facts. N<=5/6, widths<=4/6; corpus clause not covered by the solver.'),
 }
 
 NOT_YET = {}
